@@ -18,9 +18,7 @@ Theorem C08_request_sign_unblind : forall (K : Fld) (sk : skey K) (pk : pkey K) 
   key_ok K sk pk -> pk_g1 pk <> f0 -> u <> f0 -> length ms = length ks ->
   exists v, req_verify pk (req_prove pk ms bf kbf ks c) c = Some v /\
             verify pk ms (unblind bf (blind_sign sk pk u v)) = true.
-Proof. intros K sk pk ms bf kbf ks c u Hk Hg Hu Hl. exists (blind pk ms bf). split.
-  - now apply req_complete.
-  - now apply blind_sign_unblind. Qed.
+Proof. exact request_sign_unblind. Qed.
 
 (** ... and on no message differing in a single coordinate (multi-coordinate differences are accepted
     iff <Y~, m - m'> = 0, which requires a discrete logarithm of the key: named, not proved) *)
